@@ -1190,6 +1190,20 @@ def _opt_apply(lf, op, st):
     elif k == "aln":
         st["aln"] = op[1]
         lf.set_alignment(make_aln(st["tips"], op[1]))
+    elif k == "faulty_block":
+        # a batch whose flush fails half-way: two rules and an alignment the model cannot read (RNA symbols); the caller
+        # catches the error and repairs the input with the next step
+        from cogent3 import make_aligned_seqs
+        bad = make_aligned_seqs({n: s.replace("T", "U") for n, s in rows_for(st["tips"], 0).items()}, moltype="rna")
+        try:
+            with lf.updates_postponed():
+                lf.set_param_rule("length", edge="a", init=0.7)
+                lf.set_param_rule("length", edge="b", init=0.05)
+                lf.set_alignment(bad)
+        except Exception:
+            st["broken"] = True
+            return
+        raise RuntimeError("an RNA alignment was accepted by a DNA model")
     else:
         raise ValueError(op)
 
@@ -1209,6 +1223,8 @@ def run_optimise_fresh(case):
             _opt_apply(lf, op, st)
         except Exception as e:
             return (f"step-raises-{type(e).__name__}", f"step {i} {op}: {type(e).__name__}: {str(e)[:200]}")
+        if st.pop("broken", False):
+            continue                  # the function holds an unreadable alignment until the next step repairs it
         try:
             lnl, nfp = float(lf.lnL), int(lf.nfp)
             rules = lf.get_param_rules()
@@ -1267,6 +1283,13 @@ def gen_optimise_fresh(tier, seed):
             [["opt", 20, True], ["aln", 1]],
             [["opt", 15, True], ["mprobs", 1], ["opt", 10, True]],
             [["opt", 60, False]],
+            # a flush that raises half-way, then the repair
+            [["faulty_block"], ["aln", 0]],
+            [["faulty_block"], ["aln", 1], ["rule", "length", 0.3]],
+            [["opt", 10, True], ["faulty_block"], ["aln", 0]],
+            # with motif probabilities given (not re-estimated from the repaired alignment, which would refresh everything)
+            [["mprobs", 1], ["faulty_block"], ["aln", 0]],
+            [["mprobs", 0], ["faulty_block"], ["aln", 1], ["rule", "length", 0.3]],
         ]
         if par:
             seqs += [[["rule", par, 3.0], ["opt", 20, True]], [["opt", 15, True], ["const", par, 2.0], ["opt", 10, True]]]
@@ -1324,7 +1347,8 @@ BOUNDED = {
         "bound": "9 models: HKY85, GTR, GN, HKY85 with 2 / 4 gamma rate classes, with 2 / 3 free rate classes, with kappa in 2 "
                  "free classes (ordered / partitioned); 4-tip tree (thorough also 3-tip); 7-9 histories each mixing real "
                  "optimiser runs (local Powell with 10-25 evaluations, one global run) with rules, constants, motif "
-                 "probabilities and an alignment swap; thorough: longer runs",
+                 "probabilities, an alignment swap and a postponed block whose flush raises half-way (unreadable alignment) "
+                 "followed by its repair; thorough: longer runs",
         "rule": "after every step the reported lnL equals (a) the value of a calculator newly made from the settings the "
                 "function holds, (b) lnL and nfp of a newly built function given the exported rules, the partitions "
                 "behind free distributions (not exported: finding C07-K2) and the alignment in force, (c) the same given "
